@@ -254,6 +254,10 @@ def model_run(drv, cfg):
         idx = np.random.RandomState(cfg["samp"][1]).choice(np.arange(n1), cfg["samp"][0], replace=False)   # oracle
         p, f = drv.call("pre_sample", idx.astype(np.int64), p, f)
     if cfg["edges"] is None:
+        if p.shape[1] == 0:
+            # no point left (everything masked) and no bins given: standard bins of an empty cloud are undefined;
+            # the implementation raises ValueError (numpy: zero-size reduction) — outside the property
+            return dict(error="ValueError")
         e_user = drv.call("std_bins", bool(cfg["latlon"]), float(cfg["geo"]), p)
     else:
         e_user = np.asarray(cfg["edges"], float)
@@ -665,6 +669,59 @@ def probes(ctx, rng, gs, reps, thorough):
                    R, B, dict(n=n, latlon=arr_desc(ll), latlon2=arr_desc(ll2), field=arr_desc(f), edges=arr_desc(er)), near=near)
 
 
+def axis_probes(ctx, rng, gs, reps):
+    """vario_estimate_axis: missing values by NaN / no_data / mask are one and the same; f+c, c f; and the axis
+    estimator equals the directional vario_estimate of the same regular grid along that axis"""
+    for rep in range(reps):
+        for dim in (1, 2, 3):
+            shape = tuple(int(x) for x in rng.integers(3, 7, size=dim))
+            fld = rng.normal(size=shape)
+            axis = int(rng.integers(dim))
+            est = "matheron" if rng.random() < 0.5 else "cressie"
+            m = rng.random(size=shape) < 0.2
+            base = dict(shape=list(shape), axis=axis, est=est, field=arr_desc(fld), mask=arr_desc(m))
+            hist = dict(entry="probe-axis", dim=dim, n=int(np.prod(shape)), est=est)
+
+            def va(f, **kw):
+                try:
+                    return np.asarray(gs.vario_estimate_axis(f, direction=axis, estimator=est, **kw))
+                except Exception as e:   # noqa
+                    ctx.violation("probe: vario_estimate_axis raised", "%s: %s" % (type(e).__name__, e), base, key="vario_estimate_axis:exception")
+                    return None
+            ctx.count(("axis-missing", shape, axis, est), hist=hist)
+            A = va(np.ma.array(fld, mask=m))
+            fn = fld.copy(); fn[m] = np.nan
+            fd = fld.copy(); fd[m] = -999.0
+            for name, B in (("NaN", va(fn)), ("no_data", va(fd, no_data=-999.0)), ("masked NaN", va(np.ma.array(fn, mask=m)))):
+                if A is not None and B is not None and not C.bit_equal(A, B):
+                    ctx.violation("probe: vario_estimate_axis missing values", "%s cells are not treated like masked cells" % name,
+                                  dict(base, masked=A.tolist(), other=B.tolist()), key="axis:missing:" + name)
+            ctx.count(("axis-shift-scale", shape, axis, est), hist=hist)
+            c = float(rng.choice([-2.5, 0.5, 30.0]))
+            F0, F1, F2 = va(fld), va(fld + c), va(fld * c)
+            if F0 is not None and F1 is not None and F2 is not None:
+                if not rel_close(F0, F1, rtol=1e-9 * max(1.0, c * c), atol=1e-300) or not rel_close(F0 * c * c, F2, atol=1e-300):
+                    ctx.violation("probe: vario_estimate_axis f+c / c f", "axis estimator not shift invariant / not scaling with c^2",
+                                  dict(base, c=c, plain=F0.tolist(), shifted=F1.tolist(), scaled=F2.tolist()), key="axis:shift-scale")
+            # regular unit grid: lag k along the axis = directional estimate, band < 1, bins [k - 1/2, k + 1/2)
+            if dim >= 2:
+                ctx.count(("axis-vs-directional", shape, axis, est), hist=hist)
+                axes = [np.arange(s, dtype=float) for s in shape]
+                d = np.zeros(dim); d[axis] = 1.0
+                nk = shape[axis]
+                edges = np.arange(nk + 1) - 0.5
+                edges[0] = 0.25
+                try:
+                    _, g = gs.vario_estimate(tuple(axes), np.ma.array(fld, mask=m), edges, direction=[d], bandwidth=0.5, angles_tol=0.3,
+                                             estimator=est, mesh_type="structured")
+                    if A is not None and not rel_close(A[1:], np.asarray(g)[1:], atol=1e-300):
+                        ctx.violation("probe: axis estimator vs directional estimate of the same grid",
+                                      "vario_estimate_axis differs from vario_estimate(structured, direction = axis)",
+                                      dict(base, axis_est=A.tolist(), directional=np.asarray(g).tolist()), key="axis:vs-directional")
+                except Exception as e:   # noqa
+                    ctx.violation("probe: vario_estimate raised", "%s: %s" % (type(e).__name__, e), base, key="vario_estimate:exception")
+
+
 def corpus(ctx, gs):
     """deterministic cases that once failed (kept as regression corpus, run first)"""
     # 1. default bins must not depend on points that carry no data (fixed in /repo: 'fix: vario_estimate drops points ...')
@@ -709,12 +766,14 @@ def run(ctx):
     ctx.not_proved = [
         "float rounding under re-association: the invariance theorems are over R; probes compare with 1e-9 relative and exact counts "
         "(except when a pair distance lies within 1e-11 of a bin edge); the removal theorems hold for every number type and are probed bit-exactly",
-        "directional estimates: the direction test's invariance under joint rotations is probed, not proved (the directional kernel has no "
-        "proved pair-enumeration spec yet, see C08)",
+        "directional estimates: rotation with the coordinate system is proved for the translated kernel over R; permutation invariance "
+        "of the directional estimate is probed only (the directional kernel has no proved pair-enumeration spec yet, see C08)",
         "a NaN in one field of a stack removes exactly that field's pairs: structural lemma C09_nan_point_in_no_pair + probe (counts and Matheron sums add up over the fields)",
         "mean / trend / normalizer preprocessing (normalizer/tools.py) is probed against preprocessing by hand, not modelled",
         "lat-lon: rotation invariance of the great-circle distance is C13; here only longitude shifts / equator mirroring are probed",
     ]
+    import time
+    t0 = time.time()
     gen = C.regenerate(["Estimator_gen.v"])
     tie_broken = [("%s: %s" % kv) for kv in gen.items() if kv[1]]
     ctx.tie["estimator.pyx"] = "translated (pyx2coq) on this run" if not tie_broken else "TRANSLATION FAILED"
@@ -729,12 +788,18 @@ def run(ctx):
     ctx.tie["vario_estimate preprocessing (VarioPre: pre_mask, pre_no_data, pre_drop_missing, pre_dirs, ang2dir_row, sep_test, pre_sample, "
             "std_bins, pre_edges, centers, generate_grid)"] = "hand model + correspondence (arguments handed to the kernels and results)"
     ctx.tie["unstructured_spec / directional"] = "spec proved equal to the translated kernel (C15/C08) / translated kernel; executed on the model's preprocessed arrays"
+    t1 = time.time()
     try:
         corpus(ctx, gs)
         bad = []
         if drv is not None:
-            bad = correspondence(ctx, rng, gs, drv, 400 if thorough else 110, thorough)
-        probes(ctx, rng, gs, 8 if thorough else 2, thorough)
+            bad = correspondence(ctx, rng, gs, drv, 12000 if thorough else 1500, thorough)
+        t2 = time.time()
+        probes(ctx, rng, gs, 120 if thorough else 15, thorough)
+        axis_probes(ctx, rng, gs, 120 if thorough else 15)
+        ctx.notes.append("wall: proofs+driver build (incl. waiting for the shared build lock) %.0fs, correspondence %.0fs, probes %.0fs"
+                         % (t1 - t0, t2 - t1, time.time() - t2))
+        C.log("[C09] " + ctx.notes[-1])
     finally:
         if drv:
             drv.close()
